@@ -7,8 +7,8 @@
 //@ inject src/value/encode.rs
 //@ default-clause C07.bin.nopanic
 //@ harness k4_bytes_bin     tier=quick kind=complete fn=src/value/encode.rs::<[u8]>::to_mysql_bin
-//@ harness k4_forwarders    tier=quick kind=bounded bound=byte-strings-of-at-most-3-bytes fn=src/value/encode.rs::<Vec<u8>|&T>::to_mysql_bin/to_mysql_text
-//@ harness k4_forwarders_str tier=quick kind=bounded bound=ascii-strings-of-at-most-3-bytes fn=src/value/encode.rs::<str|String>::to_mysql_bin/to_mysql_text
+//@ harness k4_forwarders    tier=quick kind=bounded bound=byte-strings-of-2-bytes fn=src/value/encode.rs::<Vec<u8>|&T>::to_mysql_bin/to_mysql_text
+//@ harness k4_forwarders_str tier=quick kind=bounded bound=ascii-strings-of-2-bytes fn=src/value/encode.rs::<str|String>::to_mysql_bin/to_mysql_text
 //@ harness k4_bytes_text    tier=quick kind=complete fn=src/value/encode.rs::<[u8]>::to_mysql_text
 //@ harness k4_option        tier=quick kind=complete fn=src/value/encode.rs::<Option<T>>::{to_mysql_bin,is_null}
 //@ harness k4_option_text   tier=quick kind=complete fn=src/value/encode.rs::<Option<T>>::to_mysql_text
@@ -100,11 +100,9 @@ pub fn k4_bytes_bin() {
 #[cfg_attr(kani, kani::unwind(10))]
 pub fn k4_forwarders() {
     // Vec<u8>, &Vec<u8>, &&[u8] forward to the [u8] impl (whose all-lengths contract is k4_bytes_bin /
-    // k4_bytes_text); byte strings of at most 3 bytes here
-    let raw: [u8; 3] = vk::any();
-    let n: usize = vk::any();
-    vk::assume(n <= 3);
-    let data: Vec<u8> = raw[..n].to_vec();
+    // k4_bytes_text); two-byte strings here
+    let raw: [u8; 2] = vk::any();
+    let data: Vec<u8> = vec![raw[0], raw[1]];
     let c = col(ColumnType::MYSQL_TYPE_VAR_STRING, false);
     let which: u8 = vk::any();
     let text: bool = vk::any();
@@ -123,41 +121,29 @@ pub fn k4_forwarders() {
         }
     };
     vk_cover!(which == 1 && text, "cover: &Vec<u8> text");
-    vk_cover!(which == 3 && !text && n == 3, "cover: Vec<u8> bin");
-    vk_assert!(r.is_ok() && b.n == 1 + n && b.b[0] as usize == n, "[C07.bin.bytes] forwarding impl did not write lenenc_str(bytes)");
-    let k: usize = vk::any();
-    vk::assume(k < n);
-    vk_assert!(b.b[1 + k] == raw[k], "[C07.bin.bytes] forwarding impl payload differs");
+    vk_cover!(which == 3 && !text, "cover: Vec<u8> bin");
+    vk_assert!(r.is_ok() && b.n == 3 && b.b[0] == 2 && b.b[1] == raw[0] && b.b[2] == raw[1], "[C07.bin.bytes] forwarding impl did not write lenenc_str(bytes)");
 }
 
 #[cfg_attr(kani, kani::proof)]
 #[cfg_attr(kani, kani::stub(std::fmt::format, fmt_stub))]
-#[cfg_attr(kani, kani::unwind(10))]
+#[cfg_attr(kani, kani::unwind(6))]
 pub fn k4_forwarders_str() {
-    // str / String forward `as_bytes()`; ASCII strings of at most 3 bytes (bounded in length; the
-    // all-lengths fact is the [u8] contract above)
-    let raw: [u8; 3] = vk::any();
-    vk::assume(raw[0] < 128 && raw[1] < 128 && raw[2] < 128);
-    let n: usize = vk::any();
-    vk::assume(n <= 3);
-    let st: &str = unsafe { std::str::from_utf8_unchecked(&raw[..n]) };
+    // str / String forward `as_bytes()`; two-byte ASCII strings (bounded in length; the all-lengths
+    // fact is the [u8] contract above)
+    let raw: [u8; 2] = vk::any();
+    vk::assume(raw[0] < 128 && raw[1] < 128);
+    let st: &str = unsafe { std::str::from_utf8_unchecked(&raw[..]) };
     let c = col(ColumnType::MYSQL_TYPE_VAR_STRING, false);
-    let owned: bool = vk::any();
     let text: bool = vk::any();
     let mut b = Buf::<8>::new();
-    let r = if owned {
-        let o = String::from(st);
-        if text { o.to_mysql_text(&mut b) } else { o.to_mysql_bin(&mut b, &c) }
-    } else if text {
-        st.to_mysql_text(&mut b)
-    } else {
-        st.to_mysql_bin(&mut b, &c)
-    };
-    vk_cover!(owned && n == 3, "cover: String of 3 bytes");
-    vk_assert!(r.is_ok() && b.n == 1 + n && b.b[0] as usize == n, "[C07.bin.bytes] str/String not encoded as lenenc_str(as_bytes())");
-    let k: usize = vk::any();
-    vk::assume(k < n);
-    vk_assert!(b.b[1 + k] == raw[k], "[C07.bin.bytes] str/String payload differs");
+    let r = if text { st.to_mysql_text(&mut b) } else { st.to_mysql_bin(&mut b, &c) };
+    vk_cover!(text, "cover: str text");
+    vk_assert!(r.is_ok() && b.n == 3 && b.b[0] == 2 && b.b[1] == raw[0] && b.b[2] == raw[1], "[C07.bin.bytes] str not encoded as lenenc_str(as_bytes())");
+    let owned: String = unsafe { String::from_utf8_unchecked(vec![raw[0], raw[1]]) };
+    let mut b2 = Buf::<8>::new();
+    let r2 = if text { owned.to_mysql_text(&mut b2) } else { owned.to_mysql_bin(&mut b2, &c) };
+    vk_assert!(r2.is_ok() && b2.n == 3 && b2.b[0] == 2 && b2.b[1] == raw[0] && b2.b[2] == raw[1], "[C07.bin.bytes] String not encoded as lenenc_str(as_bytes())");
 }
 
 #[cfg(kani)]
@@ -187,6 +173,8 @@ pub fn k4_option() {
     let x: i16 = vk::any();
     let v: Option<i16> = if some { Some(x) } else { None };
     vk_assert!(v.is_null() == !some, "[C07.bin.option] is_null() must be true exactly for None");
+    vk_cover!(some, "cover: Some");
+    vk_cover!(!some, "cover: None");
     if some {
         let ci = col(ColumnType::MYSQL_TYPE_SHORT, false);
         let mut bi = Buf::<8>::new();
@@ -205,6 +193,7 @@ pub fn k4_option_text() {
     let mut t = Buf::<8>::new();
     let r = v.to_mysql_text(&mut t);
     vk_assert!(r.is_ok(), "[C06.text.null] Option text encoding failed");
+    vk_cover!(!some, "cover: NULL in text protocol");
     if some {
         vk_assert!(t.n == 3 && t.b[0] == 2 && t.b[1] == raw[0] && t.b[2] == raw[1], "[C06.text.null] Some(v) is not v's encoding");
     } else {
@@ -226,6 +215,8 @@ pub fn k4_floats_bin() {
     };
     let mut b = Buf::<16>::new();
     let r = f.to_mysql_bin(&mut b, &c);
+    vk_cover!(c.coltype == ColumnType::MYSQL_TYPE_DOUBLE && f.is_nan(), "cover: NaN into DOUBLE");
+    vk_cover!(c.coltype == ColumnType::MYSQL_TYPE_TINY, "cover: float into an integer column");
     match c.coltype {
         ColumnType::MYSQL_TYPE_FLOAT => {
             vk_assert!(r.is_ok() && b.n == 4, "[C07.bin.float] f32 into FLOAT must be 4 bytes");
@@ -384,6 +375,8 @@ pub fn k4_generic_bin() {
     let bits64: u64 = vk::any();
     let mut b = Buf::<16>::new();
     let mut b2 = Buf::<16>::new();
+    vk_cover!(which == 0 && stringlike(c.coltype), "cover: generic bytes into a string column");
+    vk_cover!(which == 2, "cover: generic double");
     match which {
         0 => {
             let v = V::Bytes(vec![raw[0], raw[1]]);
